@@ -9,7 +9,7 @@
    [input_ok]: what Ballot.IsValid(networkID) guarantees for ballots handed to Vote (no expel target twice, a
    ballot with expels carries a voteproof, the embedded voteproof is well formed). *)
 From Coq Require Import ZArith List Bool String.
-From MV Require Import C04.Model C04.PSound C04.Proofs.
+From MV Require Import C04.Model C04.PSound C04.PThresh C04.Proofs.
 From MV Require Gen.C04.
 Import ListNotations.
 Open Scope Z_scope.
@@ -54,6 +54,18 @@ Theorem C04_recount : forall e ops v,
   exists s q th, suffrage_of e v = Some s /\ validator_count v s = Some (q, th) /\
                  result_matches (tally q th (sf_ids (v_sfs v))) (v_maj v).
 Proof. exact emitted_recount. Qed.
+
+(* The threshold an emitted voteproof carries (and is validated with) is never below the threshold of the box -- for
+   the voteproofs it builds and for embedded ones handed on through the Count() path, the hold timer and the deferred
+   path of not yet validated ballots alike (no input assumption needed).  (seeded change C04-D) *)
+Theorem C04_threshold_not_below_box : forall e ops v, emitted e ops v -> en_th e <= v_th v.
+Proof. exact emitted_threshold. Qed.
+
+(* The last point of the box changes, in any step, only through the guard of SetLastPoint (LastPoint.Before of the new
+   point against the old one); countVoterecords cannot move it otherwise.  (seeded change C06-D; the monotonicity that
+   follows from the guard is C06's subject) *)
+Theorem C04_last_point_guarded : forall e b o, last_guarded b (fst (step pfx e b o)).
+Proof. exact last_point_guarded. Qed.
 
 (* non-vacuity: a history satisfying input_ok that emits an expel voteproof with a majority *)
 Example C04_example_inputs : Forall input_ok x_ops.
